@@ -16,10 +16,11 @@ package route
 
 //@ define nodeOK(n *baseTree) bool =
 //@     (forall k int :: 0 <= k && k < len(n.subtrees) ==> isTreeChild(n.subtrees[k]) && nodeOf(n.subtrees[k]).segment != nil) &&
-//@     (forall k int :: 0 <= k && k < len(n.leaves) ==> n.leaves[k] != nil) &&
+//@     (forall k int :: 0 <= k && k < len(n.leaves) ==> n.leaves[k] != nil && live(leafBase(n.leaves[k]))) &&
 //@     (n.parent == nil || (isTree(n.parent) && n.segment != nil))
 
-//@ define leafOK(l *baseLeaf) bool = l.handler != nil && l.route != nil && l.segment != nil && l.parent != nil
+//@ define optLast(r *Route) bool = forall k int :: 0 <= k && k < len(r.Segments) - 1 ==> !r.Segments[k].Optional
+//@ define leafOK(l *baseLeaf) bool = l.handler != nil && l.route != nil && l.segment != nil && l.parent != nil && routeWF(l.route) && optLast(l.route)
 
 // The canonical text of a segment / route (C06 gives the rendering its meaning; here only its shape matters).
 //@ uninterpreted reGroups(re *regexp.Regexp) int
@@ -262,7 +263,7 @@ package route
 
 //@ func newLeaf
 //@   props C08
-//@   requires treeWF() && isTree(parent) && r != nil && s != nil && h != nil
+//@   requires treeWF() && isTree(parent) && routeWF(r) && optLast(r) && s != nil && h != nil
 //@   modifies Segment.str, Segment.strOnce.fired
 //@   ensures treeWF()
 //@   ensures result1 == nil ==> result0 != nil && fresh(result0)
@@ -288,7 +289,7 @@ package route
 
 //@ func addLeaf
 //@   props C08
-//@   requires treeWF() && isTree(t) && r != nil && s != nil && h != nil
+//@   requires treeWF() && isTree(t) && routeWF(r) && optLast(r) && s != nil && h != nil
 //@   modifies baseTree.leaves, elems(type([]Leaf)), Segment.str, Segment.strOnce.fired, Route.str, Route.strOnce.fired
 //@   ensures treeWF()
 //@   ensures result1 == nil ==> result0 != nil && leafBase(result0).headerMatcher == nil && leafBase(result0).segment == s && leafBase(result0).route == r
@@ -299,6 +300,7 @@ package route
 //@ func addSubtree
 //@   props C08
 //@   requires treeWF() && isTree(t) && routeWF(r) && h != nil && 0 <= next && next + 1 < len(r.Segments)
+//@   requires forall k int :: 0 <= k && k <= next ==> !r.Segments[k].Optional
 //@   modifies baseTree.leaves, baseTree.subtrees, elems(type([]Leaf)), elems(type([]Tree)), Segment.str, Segment.strOnce.fired, Route.str, Route.strOnce.fired
 //@   ensures treeWF()
 //@   ensures result1 == nil ==> result0 != nil && leafBase(result0).headerMatcher == nil && leafBase(result0).segment == r.Segments[len(r.Segments) - 1] && leafBase(result0).route == r
@@ -309,6 +311,7 @@ package route
 //@ func addNextSegment
 //@   props C08
 //@   requires treeWF() && isTree(t) && routeWF(r) && h != nil && 0 <= next && next < len(r.Segments)
+//@   requires forall k int :: 0 <= k && k < next ==> !r.Segments[k].Optional
 //@   modifies baseTree.leaves, baseTree.subtrees, elems(type([]Leaf)), elems(type([]Tree)), Segment.str, Segment.strOnce.fired, Route.str, Route.strOnce.fired
 //@   ensures treeWF()
 //@   ensures result1 == nil ==> result0 != nil && leafBase(result0).headerMatcher == nil && leafBase(result0).segment == r.Segments[len(r.Segments) - 1] && leafBase(result0).route == r
@@ -330,8 +333,66 @@ package route
 //@   ensures treeWF()
 
 // Static(): the leaf and all its ancestors are static
+//@ define staticAnc(t Tree) bool = t == nil || (style(t) <= 1 && staticAnc(nodeOf(t).parent))
 //@ func (*staticLeaf).Static
 //@   props C10
 //@   requires treeWF()
 //@   modifies nothing
-//@   loop 0 invariant treeWF() && (ancestor == nil || isTree(ancestor))
+//@   ensures result == staticAnc(l.parent)
+//@   loop 0 invariant treeWF() && (ancestor == nil || isTree(ancestor)) && staticAnc(l.parent) == staticAnc(ancestor)
+
+// ---------------------------------------------------------------------------
+// C09: header constraints reach every leaf of the route
+// ---------------------------------------------------------------------------
+
+//@ func NewHeaderMatcher
+//@   props C09
+//@   ensures result != nil && fresh(result) && result.matches == matches
+
+// the tree that hosts the short-form leaf of an optional leaf: the grandparent, or the parent when it is the root
+//@ define shortHost(l *baseLeaf) Tree = ite(nodeOf(l.parent).parent != nil, nodeOf(l.parent).parent, l.parent)
+
+//@ func (*baseLeaf).SetHeaderMatcher
+//@   props C09
+//@   requires treeWF() && live(l)
+//@   modifies baseLeaf.headerMatcher, Route.str, Route.strOnce.fired
+//@   ensures treeWF()
+//@   ensures l.headerMatcher == m
+//@   ensures forall x *baseLeaf :: live(x) ==> x.headerMatcher == old(x.headerMatcher) || x.headerMatcher == m
+//@   ensures forall x *baseLeaf :: live(x) && routeStr(x.route) != routeStr(l.route) ==> x.headerMatcher == old(x.headerMatcher)
+//@   ensures l.segment.Optional ==> forall k int :: 0 <= k && k < len(nodeOf(shortHost(l)).leaves) ==>
+//@       (!leafBase(nodeOf(shortHost(l)).leaves[k]).segment.Optional && routeStr(leafBase(nodeOf(shortHost(l)).leaves[k]).route) == routeStr(l.route) ==> leafBase(nodeOf(shortHost(l)).leaves[k]).headerMatcher == m)
+//@   loop 0 invariant treeWF() && l.headerMatcher == m && isTree(host)
+//@   loop 0 invariant forall x *baseLeaf :: live(x) ==> x.headerMatcher == old(x.headerMatcher) || x.headerMatcher == m
+//@   loop 0 invariant forall x *baseLeaf :: live(x) && routeStr(x.route) != routeStr(l.route) ==> x.headerMatcher == old(x.headerMatcher)
+//@   loop 0 invariant forall k int :: 0 <= k && k <= rangeindex ==>
+//@       (!leafBase(nodeOf(host).leaves[k]).segment.Optional && routeStr(leafBase(nodeOf(host).leaves[k]).route) == routeStr(l.route) ==> leafBase(nodeOf(host).leaves[k]).headerMatcher == m)
+
+// ---------------------------------------------------------------------------
+// C12: the URL skeleton of a route
+// ---------------------------------------------------------------------------
+
+// skeleton of a parameter list: every parameter with an expression is a bind; others only annotate the first
+//@ define paramsSkel(bp *BindParameters, k int) string = ite(k <= 0, "",
+//@     paramsSkel(bp, k - 1) + ite(k - 1 > 0 && bp.Parameters[k - 1].Value.Regex == nil, "", "{" + bp.Parameters[k - 1].Ident + "}"))
+//@ define elemSkel(e SegmentElement) string = ite(e.Ident != nil, *e.Ident, ite(e.BindIdent != nil, "{" + *e.BindIdent + "}",
+//@     ite(e.BindParameters == nil || len(e.BindParameters.Parameters) == 0, "???", paramsSkel(e.BindParameters, len(e.BindParameters.Parameters)))))
+// "/" followed by the first k elements of the segment
+//@ define segSkel(s *Segment, k int) string = ite(k <= 0, "/", segSkel(s, k - 1) + elemSkel(s.Elements[k - 1]))
+// the first j segments; an optional segment ends the skeleton unless withOptional
+//@ define stopAt(r *Route, j int, wo bool) bool = j > 0 && (stopAt(r, j - 1, wo) || (r.Segments[j - 1].Optional && !wo))
+//@ define routeSkel(r *Route, j int, wo bool) string = ite(j <= 0, "",
+//@     ite(stopAt(r, j, wo), routeSkel(r, j - 1, wo), routeSkel(r, j - 1, wo) + segSkel(r.Segments[j - 1], len(r.Segments[j - 1].Elements))))
+
+//@ func (*baseLeaf).URLPath
+//@   props C12
+//@   requires treeWF() && live(l)
+//@   modifies nothing
+//@   assert before Replace#0: buf.content == routeSkel(l.route, len(l.route.Segments), withOptional)
+//@   loop 0 invariant !stopAt(l.route, rangeindex + 1, withOptional) && buf.content == routeSkel(l.route, rangeindex + 1, withOptional)
+//@   loop 1 invariant !stopAt(l.route, rangeindex#0 + 1, withOptional) && !(s.Optional && !withOptional) && s == l.route.Segments[rangeindex#0]
+//@   loop 1 invariant buf.content == routeSkel(l.route, rangeindex#0, withOptional) + segSkel(s, rangeindex#1 + 1)
+//@   loop 2 invariant !stopAt(l.route, rangeindex#0 + 1, withOptional) && !(s.Optional && !withOptional) && s == l.route.Segments[rangeindex#0]
+//@   loop 2 invariant e == s.Elements[rangeindex#1] && e.Ident == nil && e.BindIdent == nil && e.BindParameters != nil && len(e.BindParameters.Parameters) > 0
+//@   loop 2 invariant buf.content == routeSkel(l.route, rangeindex#0, withOptional) + segSkel(s, rangeindex#1) + paramsSkel(e.BindParameters, rangeindex#2 + 1)
+//@   loop 3 invariant fresh(pairs) && buf.content == routeSkel(l.route, len(l.route.Segments), withOptional)
